@@ -23,6 +23,9 @@ CLAIMED = {
  "C12": ("E1 breadth-first history exploration with map-state deduplication + E2 product",
          "all histories of <= 5 (quick) / <= 7 (thorough) operations from 45 operations on objects o, p over the keys a, b, B, empty, 'a b', '1' (insert / overwrite through [] and ., computed and interpolated keys, op-assign both ways and on missing keys, spread before / after pairs and shorthands, collect, alias); states merged on the sorted contents; each history completed by printing, iterating, reading every present key both ways, comparing both ways and reading an absent key; plus all object literals of <= 3 (thorough 4) entries over 12 entry forms and 11 rejected entry forms; oracle = reference model (sorted association list)",
          "explicit-state breadth-first exploration with canonical-state deduplication on the real interpreter against a reference model"),
+ "C13": ("E2 product (complete)",
+         "all list patterns of width 0..4 (thorough 5) over {name, _, [n, n], [n, ..n], {\"k\": n}, {k}} x {no rest, ..r, .._} x source lengths 0..5 x 4 binding positions (declaration, assignment, for target, parameter), the pattern itself as for target, wrong-kind elements, non-list sources; object patterns over every ordered selection of <= 3 of the keys a, b, c x 4 entry forms x rest x all 32 source key subsets x positions; 30 malformed patterns; spread laws for all length pairs; argument splits; oracle = length / key rules written from the statement (cross-checked against the reference binder), reference outputs, round-trip laws evaluated by the subject",
+         "exhaustive enumeration of a finite product space on the real interpreter against statement-derived rules and a reference model"),
  "C14": ("E1 breadth-first history exploration with provenance-state deduplication + E2 product",
          "all histories of <= 6 (quick) / <= 8 (thorough) operations from 36 operations that attach a function to objects, read it through . / [], move the value through variables, arguments, list elements, returns, destructuring and other objects, and call it; states merged on the (function, provenance) content of every holder; each history completed by calling every holder; plus arity 0..4 x rest x 0..5 arguments x every plain/spread split with printing arguments, parameter-freshness and callee-order programs; oracle = reference model with explicit provenance",
          "explicit-state breadth-first exploration with canonical-state deduplication on the real interpreter against a reference model"),
